@@ -36,7 +36,11 @@ func init() {
 	)
 	registry.RegisterAnyConverter(reflect.TypeOf((*Time)(nil)),
 		func(in any) (any, bool) {
-			return in.(*Time).Value, true
+			v := in.(*Time)
+			if v == nil {
+				return nil, true
+			}
+			return v.Value, true
 		},
 	)
 
@@ -51,7 +55,11 @@ func init() {
 	)
 	registry.RegisterAnyConverter(reflect.TypeOf((*Location)(nil)),
 		func(in any) (any, bool) {
-			return in.(*Location).Value, true
+			v := in.(*Location)
+			if v == nil {
+				return nil, true
+			}
+			return v.Value, true
 		},
 	)
 }
